@@ -11,6 +11,8 @@ import EdxmlModel.Miner.Search
 import EdxmlProps.Lemmas.Search
 import EdxmlModel.Miner.Construct
 import EdxmlProps.Lemmas.Construct
+import EdxmlModel.Miner.Extract
+import EdxmlProps.Lemmas.Extract
 import EdxmlProps.Lemmas.Merge
 import Mathlib.Tactic.Linarith
 import Mathlib.Tactic.Positivity
@@ -588,7 +590,136 @@ example : RelsOk gapEt := by
   subst hr
   exact ⟨⟨⟨"pa", "oa", ["ca"]⟩, by simp [gapEt], rfl, by simp⟩, ⟨⟨"pb", "ob", ["cb"]⟩, by simp [gapEt], rfl, by simp⟩⟩
 
+/-- C20 (coverage, end to end): from the events to the instances. When mining without a seed has
+stopped (`find_optimal_seed` found no untainted node: `pickOk … none`), every object that any event
+holds for a concept-associated property has a node (`graph_covers`), that node is tainted
+(`pickOk_sound`), and so it has a confidence of at least the requested minimum with respect to one
+of the mined seeds (`coverage`): `extract_result_set` puts it into that seed's instance.
+`num` numbers the nodes for the search, `hist k` is what node `k` went through (was it a seed; its
+seed confidences in the order the seeds were mined). -/
+theorem objects_covered (evs : List (EtDef × Ev)) (num : NodeId → Nat) (cands : List Cand)
+    (hist : Nat → Bool × List Rat) (min : Rat) (hmin : min ≤ 1)
+    (hcand : ∀ n ∈ graphNodes 0 evs, ∃ c ∈ cands, c.id = num n)
+    (htaint : ∀ c ∈ cands, c.taint = taintHistory (hist c.id).1 (hist c.id).2)
+    (hentries : ∀ c ∈ cands, ∀ x ∈ (hist c.id).2, min < x ∨ x = 1)
+    (hseed : ∀ c ∈ cands, (hist c.id).1 = true → (1 : Rat) ∈ (hist c.id).2)
+    (hnn : ∀ c ∈ cands, 0 ≤ c.taint)
+    (hstop : pickOk cands none = true)
+    (i : Nat) (et : EtDef) (ev : Ev) (hi : evs[i]? = some (et, ev))
+    (p : PropDef) (v : String) (hp : p ∈ et.props) (ha : p.assocs ≠ []) (hv : v ∈ objects ev p.name) :
+    ∃ n ∈ graphNodes 0 evs, n.event = i ∧ n.prop = p.name ∧ n.value = v ∧ ∃ x ∈ (hist (num n)).2, min ≤ x := by
+  obtain ⟨n, hn, h1, h2, h3⟩ := graph_covers evs 0 i et ev hi p v hp ha hv
+  obtain ⟨c, hc, hid⟩ := hcand n hn
+  have hpos : 0 < c.taint := (pickOk_sound cands none hnn hstop).1 rfl c hc
+  rw [htaint c hc] at hpos
+  obtain ⟨x, hx, hle⟩ := coverage (hist c.id).1 (hist c.id).2 min hmin (hentries c hc) (hseed c hc) hpos
+  exact ⟨n, hn, by omega, h2, h3, x, hid ▸ hx, hle⟩
+
+/-- the hypotheses of `objects_covered` can be met: one event, its only node mined as a seed -/
+example : ∃ n ∈ graphNodes 0 [(gapEt, [("pb", ["only-target"])])], n.event = 0 ∧ n.prop = "pb" ∧ n.value = "only-target" ∧
+    ∃ x ∈ [(1 : Rat)], (1 / 10 : Rat) ≤ x :=
+  objects_covered [(gapEt, [("pb", ["only-target"])])] (fun _ => 0) [⟨0, 1, 1⟩] (fun _ => (true, [1])) (1 / 10) (by norm_num)
+    (fun _ _ => ⟨⟨0, 1, 1⟩, by simp, rfl⟩)
+    (fun c hc => by
+      simp only [List.mem_cons, List.not_mem_nil, or_false] at hc
+      subst hc
+      show (1 : Rat) = taintHistory true [1]
+      simp [taintHistory])
+    (fun _ _ x hx => by simp only [List.mem_cons, List.not_mem_nil, or_false] at hx; exact Or.inr hx)
+    (fun _ _ _ => by simp)
+    (fun c hc => by simp only [List.mem_cons, List.not_mem_nil, or_false] at hc; subst hc; norm_num)
+    (by decide +kernel) 0 gapEt [("pb", ["only-target"])] rfl ⟨"pb", "ob", ["cb"]⟩ "only-target" (by simp [gapEt]) (by simp) (by decide)
+
 end Construct
+
+/-! ### `extract_result_set`: from seed confidences to instances -/
+
+section Extract
+open Edxml.Miner.Extract
+
+/-- C20: the result set holds node `k` under attribute (`a`, `v`) of the instance of seed `s` exactly
+when an event object node with that id, attribute name and value has a confidence of at least the
+requested minimum with respect to `s` -/
+theorem extract_mem (nodes : List ONode) (min : Rat) (s : Nat) (a v : String) (k : Nat) :
+    (∃ i ∈ extract nodes min, i.seed = s ∧ ∃ x ∈ i.attrs, x.name = a ∧ x.value = v ∧ k ∈ x.nodes) ↔
+      ∃ n ∈ nodes, n.id = k ∧ n.attr = a ∧ n.value = v ∧ ∃ c, n.sc.lookup s = some c ∧ min ≤ c := by
+  unfold extract
+  constructor
+  · rintro ⟨i, hi, hs, x, hx, ha, hv, hk⟩
+    obtain ⟨s', _, rfl⟩ := List.mem_map.mp hi
+    simp only at hs hx
+    subst hs
+    obtain ⟨av, _, rfl⟩ := List.mem_map.mp hx
+    simp only at ha hv hk
+    subst ha hv
+    obtain ⟨n, hn, hid, hq, hna, hnv⟩ := mem_attrNodes.mp hk
+    exact ⟨n, hn, hid, hna, hnv, qualifies_iff.mp hq⟩
+  · rintro ⟨n, hn, hid, ha, hv, hc⟩
+    have hq := qualifies_iff.mpr hc
+    refine ⟨_, List.mem_map.mpr ⟨s, mem_seedsOf.mpr ⟨n, hn, hq⟩, rfl⟩, rfl, ?_⟩
+    refine ⟨⟨a, v, attrNodes nodes min s a v⟩, List.mem_map.mpr ⟨(a, v), mem_attrsOf.mpr ⟨n, hn, hq, ha, hv⟩, rfl⟩, rfl, rfl, ?_⟩
+    exact mem_attrNodes.mpr ⟨n, hn, hid, hq, ha, hv⟩
+
+/-- every reported node meets the requested minimum (so the attribute does: `attribute_meets_minimum`) -/
+theorem extract_meets_minimum (nodes : List ONode) (min : Rat) (i : Instance) (hi : i ∈ extract nodes min)
+    (x : Attribute) (hx : x ∈ i.attrs) (k : Nat) (hk : k ∈ x.nodes) :
+    ∃ n ∈ nodes, n.id = k ∧ ∃ c, n.sc.lookup i.seed = some c ∧ min ≤ c := by
+  obtain ⟨n, hn, hid, _, _, hc⟩ := (extract_mem nodes min i.seed x.name x.value k).mp ⟨i, hi, rfl, x, hx, rfl, rfl, hk⟩
+  exact ⟨n, hn, hid, hc⟩
+
+/-- one instance per seed, one attribute per (name, value); no instance without attributes, no attribute without nodes -/
+theorem extract_shape (nodes : List ONode) (min : Rat) :
+    ((extract nodes min).map (·.seed)).Nodup ∧
+    ∀ i ∈ extract nodes min, (i.attrs.map fun x => (x.name, x.value)).Nodup ∧ i.attrs ≠ [] ∧ ∀ x ∈ i.attrs, x.nodes ≠ [] := by
+  unfold extract
+  constructor
+  · simp only [List.map_map]
+    have : ((fun i : Instance => i.seed) ∘ fun s => ({ seed := s, attrs := (attrsOf nodes min s).map fun av => ⟨av.1, av.2, attrNodes nodes min s av.1 av.2⟩ } : Instance)) = id := by
+      funext s; rfl
+    rw [this, List.map_id]
+    exact nodup_dedup _
+  · intro i hi
+    obtain ⟨s, hs, rfl⟩ := List.mem_map.mp hi
+    refine ⟨?_, ?_, ?_⟩
+    · simp only [List.map_map]
+      have : ((fun x : Attribute => (x.name, x.value)) ∘ fun av : String × String => (⟨av.1, av.2, attrNodes nodes min s av.1 av.2⟩ : Attribute)) = id := by
+        funext av; rfl
+      rw [this, List.map_id]
+      exact nodup_dedup _
+    · obtain ⟨n, hn, hq⟩ := mem_seedsOf.mp hs
+      have : (n.attr, n.value) ∈ attrsOf nodes min s := mem_attrsOf.mpr ⟨n, hn, hq, rfl, rfl⟩
+      intro hnil
+      simp only [List.map_eq_nil_iff] at hnil
+      rw [hnil] at this
+      exact absurd this (by simp)
+    · intro x hx
+      obtain ⟨av, hav, rfl⟩ := List.mem_map.mp hx
+      obtain ⟨n, hn, hq, ha, hv⟩ := mem_attrsOf.mp (show (av.1, av.2) ∈ attrsOf nodes min s from hav)
+      intro hnil
+      have : n.id ∈ attrNodes nodes min s av.1 av.2 := mem_attrNodes.mpr ⟨n, hn, rfl, hq, ha, hv⟩
+      simp only at hnil
+      rw [hnil] at this
+      exact absurd this (by simp)
+
+/-- C20 (coverage, last step): a node that has a confidence of at least the minimum with respect to
+some seed (what `coverage` concludes for every tainted node) is reported in an instance -/
+theorem covered_in_instance (nodes : List ONode) (min : Rat) (n : ONode) (hn : n ∈ nodes)
+    (hkeys : (n.sc.map (·.1)).Nodup) (h : ∃ c ∈ n.sc.map (·.2), min ≤ c) :
+    ∃ i ∈ extract nodes min, ∃ x ∈ i.attrs, x.name = n.attr ∧ x.value = n.value ∧ n.id ∈ x.nodes := by
+  obtain ⟨c, hc, hle⟩ := h
+  obtain ⟨⟨s, c'⟩, hp, rfl⟩ := List.mem_map.mp hc
+  have hl := lookup_of_mem_nodup hkeys hp
+  obtain ⟨i, hi, _, x, hx, h1, h2, h3⟩ :=
+    (extract_mem nodes min s n.attr n.value n.id).mpr ⟨n, hn, rfl, rfl, rfl, c', hl, hle⟩
+  exact ⟨i, hi, x, hx, h1, h2, h3⟩
+
+def exNodes : List ONode :=
+  [⟨0, "oa:", "v1", [(0, 1), (2, 1/20)]⟩, ⟨1, "ob:", "v2", [(0, 9/10)]⟩, ⟨2, "oa:", "v1", [(2, 1), (0, 1/2)]⟩]
+
+example : (extract exNodes (1/10)).map (fun i => (i.seed, i.attrs.map fun x => (x.name, x.value, x.nodes))) =
+    [(2, [("oa:", "v1", [2])]), (0, [("ob:", "v2", [1]), ("oa:", "v1", [0, 2])])] := by decide +kernel
+
+end Extract
 
 /-! ### Non-vacuity -/
 
